@@ -138,7 +138,7 @@ pub const PROFILES: &[Profile] = &[
     },
     Profile {
         name: "C05",
-        weights: &[(CreateSized, 10), (CreateSlice, 16), (CreateThin, 8), (CreateStr, 4), (CreateUninit, 8), (CreateHuge, 3), (CreateLying, 1), (Convert, 10), (Raw, 6), (Union, 4), (Thin, 6), (Uninit, 8), (Unwrap, 5), (Cow, 3), (Clone, 4), (Drop, 18)],
+        weights: &[(CreateSized, 10), (CreateSlice, 16), (CreateThin, 8), (CreateStr, 4), (CreateUninit, 8), (CreateHuge, 3), (CreateLying, 1), (Convert, 10), (Raw, 6), (Union, 4), (Thin, 6), (Swap, 3), (Uninit, 8), (Unwrap, 5), (Cow, 3), (Clone, 4), (Drop, 18)],
         threads: &[(1, 100)],
         setup_ops: (6, 36),
         par_ops: (0, 0),
